@@ -26,15 +26,26 @@ def gt(a, b):
 
 
 def columns(f0):
-    """Admissible (epsilon, theta) columns of the table for f0 (two at an exact band edge)."""
+    """Admissible (epsilon, theta) columns of the guideline's table for f0.
+
+    The table's frequency ranges are "< 0.2 | 0.2 - 0.5 | 0.5 - 1.0 | 1.0 - 2.0 | > 2.0".  The outer columns are strict,
+    so exactly 0.2 Hz belongs to "0.2 - 0.5" and exactly 2.0 Hz to "1.0 - 2.0"; the inner edges 0.5 and 1.0 Hz are listed
+    in two columns each, and there both are admissible.  (Values within TOL of an edge but not equal to it are ambiguous
+    for every edge.)"""
     out = []
     for k, (edge, eps, theta) in enumerate(TABLE):
         if f0 < edge * (1 - TOL):
             out.append((eps, theta))
             break
         if abs(f0 - edge) <= TOL * edge:
-            out.append((eps, theta))
-            out.append(TABLE[k + 1][1:])
+            exact = (f0 == edge)
+            if exact and edge == 0.2:
+                out.append(TABLE[k + 1][1:])
+            elif exact and edge == 2.0:
+                out.append((eps, theta))
+            else:
+                out.append((eps, theta))
+                out.append(TABLE[k + 1][1:])
             break
     return out
 
